@@ -1000,7 +1000,7 @@ class Env:
             if TREE in rt or TREECLS in rt:
                 out += [(g, recv) for g in self._family_dispatch(TREE_BASE, name)]
             if name == "__class__":
-                return []
+                out = []  # x.__class__(...): a constructor call, not a method of x
             # x.__class__(...) handled by types; constructor effects:
             ft = self.types(f, fn)
             if NODECLS in ft and not out:
